@@ -79,12 +79,15 @@ def op_library(tag):
         "declare_used": ["declare", "g2", "ryd_glob"],
         "slm_bad_dmm": ["config_slm", ["q0", "q1"], "dmm_7"],
         "dmap_bad": ["config_dmap", {"q0": 1.0}, "dmm_7"],
+        "mag_zero": ["set_mag", [0.0, 0.0, 0.0]],
+        "mag": ["set_mag", [1.0, 0.0, 2.0]],
         "measure": ["measure", "ground-rydberg"],
         "measure_bad": ["measure", "XY"],
     }
 
 
 PREFIXES = {
+    "pe": [],
     "p0": [["declare", "g", "ryd_glob"], ["declare", "l", "ryd_loc", "q0"]],
     "p1": [["declare", "g", "ryd_glob"], ["declare", "l", "ryd_loc", "q0"],
            ["add", "g", ["cp", S("pd0", "mult", clock=4, lo=8), 1.0, 0.0, 0.0]],
@@ -316,9 +319,11 @@ def h_copy(shape):
         snap_o, snap_c = l2.snapshot(seq), l2.snapshot(cp)
         more = [["add", "g", ["cp", 20, 1.0, 0.0, 0.5]], ["target", "l", "q2"], ["phase_shift", 0.25, ["q1"], "ground-rydberg"], ["measure", "ground-rydberg"]]
         l2.run_prefix(inp, cp, more)
+        cp.declare_variable("only_on_the_copy", dtype=float)
         obs.append(("copy:%s_original_unaffected_by_calls_on_copy" % shape["via"], l2.snap_equal(snap_o, l2.snapshot(seq))))
         snap_c2 = l2.snapshot(cp)
         l2.run_prefix(inp, seq, [["delay", "g", 40], ["target", "l", "q0"], ["phase_shift", 0.75, ["q2"], "ground-rydberg"]])
+        seq.declare_variable("only_on_the_original", dtype=int)
         obs.append(("copy:%s_copy_unaffected_by_calls_on_original" % shape["via"], l2.snap_equal(snap_c2, l2.snapshot(cp))))
         return obs
 
@@ -337,6 +342,8 @@ def kernels(tier):
         for a in firsts:
             for b in names:
                 ks.append(("atomic", dict(device="virt_maxseq", prefix=pre, ops=[a, b])))
+    for ops in (["mag_zero"], ["mag_zero", "mag_zero"], ["mag", "mag_zero"], ["declare_used", "mag_zero"], ["mag_zero", "declare_used"]):
+        ks.append(("atomic", dict(device="mock", prefix="pe", ops=ops)))
     for pre in ("p0", "p1"):
         for call in ("add", "delay", "phase_shift", "enable_eom", "add_own_badchannel", "delay_own_badchannel", "add_two_args"):
             for own in (False, True):
